@@ -265,6 +265,87 @@ func writerCases(r *rng.R, n int) {
 	}
 }
 
+// writerBigCases: chunks around and above the default gRPC message size (4 MiB), written after a
+// small chunk on the same writer. However the writer maps a chunk to messages, the receiver's rule
+// (concatenate StefBytes until a message carries IsEndOfChunk) must reconstruct exactly the chunks
+// written, and the real assembler must deliver their bytes and count them. Not replayed on the
+// model (the lines would be megabytes long): the oracle is the harness's.
+func writerBigCases(r *rng.R) {
+	sizes := []int{4<<20 - 1024 - 3, 4<<20 - 1024 + 1 + r.Intn(900), 4<<20 - 1024 + 512}
+	if os.Getenv("VERIF_TIER") == "thorough" {
+		sizes = append(sizes, 4<<20-1024, 4<<20-1024+1, 4<<20-1, 4<<20+1, 9<<20+r.Intn(1000))
+	}
+	for i, sz := range sizes {
+		name := fmt.Sprintf("cw-big-%d", i)
+		note("case %s", name)
+		note("nontrivial %x", uint64(sz))
+		fs := &fakeClientStream{}
+		w := stefgrpc.VerifNewGrpcWriter(fs)
+		var chunks [][]byte
+		for _, ln := range []int{43, sz, 19} {
+			h := make([]byte, 3)
+			c := make([]byte, ln-3)
+			for x := range h {
+				h[x] = byte(r.U64())
+			}
+			for x := 0; x < len(c); x += 97 {
+				c[x] = byte(r.U64())
+			}
+			if err := w.WriteChunk(h, c); err != nil {
+				propFail("C15 writechunk-error case=%s %v", name, err)
+			}
+			chunks = append(chunks, append(append([]byte(nil), h...), c...))
+		}
+		stats["big-writechunks"] += len(chunks)
+		// receiver's rule on the messages sent
+		var got [][]byte
+		var acc []byte
+		var msgs []msg
+		for _, m := range fs.sent {
+			acc = append(acc, m.StefBytes...)
+			msgs = append(msgs, msg{m.StefBytes, m.IsEndOfChunk})
+			if m.IsEndOfChunk {
+				got = append(got, acc)
+				acc = nil
+			}
+		}
+		ok := len(acc) == 0 && len(got) == len(chunks)
+		for k := 0; ok && k < len(chunks); k++ {
+			ok = bytes.Equal(got[k], chunks[k])
+		}
+		if !ok {
+			var gl, ml []int
+			for _, g := range got {
+				gl = append(gl, len(g))
+			}
+			for _, m := range fs.sent {
+				ml = append(ml, len(m.StefBytes))
+			}
+			propFail("C15 writechunk-not-chunk-aligned case=%s chunks written: [43 %d 19] bytes; chunks a receiver reconstructs from the messages sent: %v (+%d dangling bytes); message sizes %v", name, sz, gl, len(acc), ml)
+		}
+		// the real assembler on these messages
+		asm := stefgrpc.VerifNewChunkAssembler(&scripted{msgs: msgs})
+		var all, want []byte
+		for _, c := range chunks {
+			want = append(want, c...)
+		}
+		buf := make([]byte, 1<<20)
+		for step := 0; step < 64; step++ {
+			k, err := asm.Read(buf)
+			all = append(all, buf[:k]...)
+			if err != nil {
+				break
+			}
+		}
+		if !bytes.Equal(all, want) {
+			propFail("C15 bytes-changed case=%s big chunk of %d bytes: assembler delivered %d bytes, want %d", name, sz, len(all), len(want))
+		}
+		if st := asm.Stats(); int(st.MessagesReceived) != len(chunks) {
+			propFail("C15 chunk-count case=%s assembler counted %d chunks, %d were written", name, st.MessagesReceived, len(chunks))
+		}
+	}
+}
+
 // --- end to end over loopback gRPC: bytes observed by the server-side reader equal the
 // concatenation of the chunks the client-side writer emitted.
 
@@ -368,6 +449,7 @@ func main() {
 		runCase(r, i)
 	}
 	writerCases(r, n/4)
+	writerBigCases(r)
 	endToEnd(r)
 	for k, v := range stats {
 		note("stat %s %d", k, v)
